@@ -98,6 +98,15 @@ var propCfgs = []*propCfg{
 		Stub:     []string{"Config.HasCommand (harness lookup with a fake delay per call)", "the editor (a task that follows the application's Get / late-update protocol)"},
 		Assumptions: simgoAssumptions,
 	},
+	{
+		ID: "C26", Level: "exploration", SimEngine: "simgo",
+		Quick:    tierCfg{Seeds: 1200, Secs: 80, Batch: 20},
+		Thorough: tierCfg{Seeds: 60000, Secs: 900, Batch: 40},
+		Rule:     "one evaluation = one real daemon (Serve loop, rpc server, gob, store, bbolt) and 2..8 client goroutines (own connections, or one shared client object after its first successful request) issuing 3..12 operations each (add with unique text, delete, get, next sequence, listing, next/previous search; at most 60 per history) over the simulated socket namespace under one seeded schedule; two configurations run separately: fault-free (every call must succeed) and fault-injecting (one connection is dropped at a tape-chosen step; failed operations are indeterminate: may have taken effect at most once, or not at all); the history stamped with scheduler steps is checked with porcupine against the sequential store model, plus direct uniqueness/lost/duplicate checks on the final listing; distinct = distinct interleaving+fault signature; non-trivial = at least one scheduling choice",
+		Real:     []string{"pkg/daemon Serve, service, client (lazy dial, retry on shutdown); pkg/rpc client and server (pending table, per-request goroutines, sending mutex), encoding/gob; pkg/store + bbolt on tmpfs"},
+		Stub:     []string{"unix sockets: simnet (marker file + net.Pipe connections with scheduling points at every read/write)", "signals: ServeOpts.Signals channel never fires in this check"},
+		Assumptions: append([]string{"linearizability is decided by porcupine v1.3.0 with a 30 s timeout; a timeout is counted as inconclusive, never reported"}, simgoAssumptions...),
+	},
 }
 
 func findProp(id string) *propCfg {
